@@ -120,11 +120,25 @@ def coq_build():
     return _build_cache["build"]
 
 
+def stale_after_build():
+    """theories/<path> (no extension) that `make` would still compile: files that failed, and files skipped by
+    `make -k` because a dependency failed.  Their old .vo (if any) is left on disk by make, so the mtime test
+    of vo_ok alone would accept a stale .vo whose regenerated dependency changed."""
+    if "stale" not in _build_cache:
+        try:
+            rc, out = sh(["make", "-n", "-k"], cwd=COQ, timeout=300)
+            _build_cache["stale"] = set(re.findall(r"COQC (theories/\S+)\.v\b", out))
+        except Exception:  # noqa
+            _build_cache["stale"] = set()
+    return _build_cache["stale"]
+
+
 def vo_ok(relpath):
-    """True iff theories/<relpath>.vo exists and is newer than its source."""
+    """True iff theories/<relpath>.vo exists, is newer than its source and make considers it up to date."""
     v = os.path.join(COQ, "theories", relpath + ".v")
     vo = os.path.join(COQ, "theories", relpath + ".vo")
-    return os.path.exists(vo) and os.path.getmtime(vo) >= os.path.getmtime(v)
+    return (os.path.exists(vo) and os.path.getmtime(vo) >= os.path.getmtime(v)
+            and ("theories/" + relpath) not in stale_after_build())
 
 
 def failed_files(build_log):
@@ -173,7 +187,7 @@ def print_assumptions(pid, names):
             res[name] = []
         else:
             axs = re.findall(r"^([A-Za-z_][A-Za-z0-9_.']*)\s*:", body, flags=re.M)
-            res[name] = axs
+            res[name] = [a for a in axs if a != "Axioms"]   # "Axioms:" is the header line of the listing
     return res
 
 
